@@ -34,6 +34,11 @@ type Sched struct {
 	maxSteps int
 	// Pick, if set, chooses among the runnable thread ids (exhaustive exploration)
 	Pick func(step int, runnable []int) int
+	// random exploration comes in three flavours, drawn per run from the seed: uniform at every step, or "sticky" (the
+	// thread that ran last keeps running with probability 1-1/stick): long uninterrupted stretches of one thread are what
+	// puts a WHOLE operation of one goroutine between two adjacent steps of another
+	stick int
+	last  int
 }
 
 var (
@@ -91,7 +96,13 @@ func YieldWhen(label string, guard func() bool) {
 func Run(seed int64, replay []int, pick func(step int, runnable []int) int, bodies ...func()) *Sched {
 	gmu.Lock()
 	defer gmu.Unlock()
-	s := &Sched{yielded: make(chan struct{}), rng: rand.New(rand.NewSource(seed)), replay: replay, maxSteps: 20000, Pick: pick}
+	s := &Sched{yielded: make(chan struct{}), rng: rand.New(rand.NewSource(seed)), replay: replay, maxSteps: 20000, Pick: pick, last: -1}
+	switch s.rng.Intn(3) {
+	case 1:
+		s.stick = 6
+	case 2:
+		s.stick = 24
+	}
 	for i, b := range bodies {
 		t := &thread{id: i, resume: make(chan struct{})}
 		s.threads = append(s.threads, t)
@@ -141,9 +152,12 @@ func Run(seed int64, replay []int, pick func(step int, runnable []int) int, bodi
 			c = s.replay[step]
 		case s.Pick != nil:
 			c = s.Pick(step, runnable)
+		case s.stick > 0 && s.last >= 0 && contains(runnable, s.last) && s.rng.Intn(s.stick) != 0:
+			c = s.last
 		default:
 			c = runnable[s.rng.Intn(len(runnable))]
 		}
+		s.last = c
 		s.Choices = append(s.Choices, c)
 		t := s.threads[c]
 		s.cur = t
